@@ -2,6 +2,56 @@ from . import F, N
 
 K = "kd_buf_parser.py"
 MUTANTS = [
+    F("C03", "tag scanner: prefix counter that restarts at 0 or 1 (misses overlapping false starts)", K,
+      """    found = reader.read(len(data))
+    while found != data:
+        byte = reader.read(1)
+        if not byte:
+            raise EOFError(f'{data!r} was not found before the end of the stream')
+        found = found[1:] + byte
+""",
+      """    matched = 0
+    while matched < len(data):
+        byte = reader.read(1)
+        if not byte:
+            raise EOFError(f'{data!r} was not found before the end of the stream')
+        if byte[0] == data[matched]:
+            matched += 1
+        else:
+            matched = 1 if byte[0] == data[0] else 0
+""", "R7"),
+    F("C03", "tag scanner: prefix counter that restarts at 0", K,
+      """    found = reader.read(len(data))
+    while found != data:
+        byte = reader.read(1)
+        if not byte:
+            raise EOFError(f'{data!r} was not found before the end of the stream')
+        found = found[1:] + byte
+""",
+      """    matched = 0
+    while matched != len(data):
+        byte = reader.read(1)
+        if not byte:
+            raise EOFError(f'{data!r} was not found before the end of the stream')
+        matched = matched + 1 if byte == data[matched:matched + 1] else 0
+""", "R7"),
+    N("C03", "tag scanner: while True / return form of the same window", K,
+      """    found = reader.read(len(data))
+    while found != data:
+        byte = reader.read(1)
+        if not byte:
+            raise EOFError(f'{data!r} was not found before the end of the stream')
+        found = found[1:] + byte
+""",
+      """    window = reader.read(len(data))
+    while True:
+        if window == data:
+            return
+        nxt = reader.read(1)
+        if nxt == b'':
+            raise EOFError(f'{data!r} was not found before the end of the stream')
+        window = window[1:] + nxt
+"""),
     F("C03", "last record of each chunk dropped", K, "            for _ in range(size // KEVENT_SIZE):", "            for _ in range(size // KEVENT_SIZE - 1):", "R1"),
     F("C03", "only the first chunk is read", K,
       "            if reader.read(len(TRACEV3_MORE_EVENTS)) != TRACEV3_MORE_EVENTS:\n                break", "            reader.read(len(TRACEV3_MORE_EVENTS))\n            break", "R1"),
